@@ -364,7 +364,11 @@ func c36IntType(sp c36IntSpec) *c36Type {
 			}
 			s = fmt.Sprint(rapid.IntRange(lo, 120).Draw(rt, label+".v"))
 		}
-		return c36Val{lit: s, key: "i:" + s}
+		var tags []string
+		if s == "18446744073709551615" {
+			tags = append(tags, "uint_gt_int64")
+		}
+		return c36Val{lit: s, key: "i:" + s, tags: tags}
 	}
 	t.obs = func(q string) []string { return []string{"CAST(" + q + " AS CHAR)"} }
 	t.defs = []string{"0", "'7'", sp.max}
@@ -955,6 +959,7 @@ type c36Gate struct {
 	noParquetNullDec bool // C36-parquet-null-decimal
 	noFileGenerated  bool // C36-file-generated-column
 	noParquetDotted  bool // C36-parquet-dotted-column
+	noParquetUint64  bool // C36-parquet-uint64: no BIGINT UNSIGNED value above the int64 range in parquet cases
 	excluded         int
 }
 
@@ -1697,6 +1702,7 @@ var c36FormatRestrictions = map[string][]string{
 		"no BIT columns; while C36-parquet-null-decimal is open: DECIMAL columns are NOT NULL",
 		"DECIMAL values have at most 15 digits in their unscaled integer value*10^scale (parquet/writer.go: 'the parquet-go library uses big.Float to write ... and loses precision for long decimals')",
 		"while C36-parquet-dotted-column is open: column names contain no '.'",
+		"while C36-parquet-uint64 is open: no BIGINT UNSIGNED value above 9223372036854775807",
 	},
 	"all": {
 		"while C36-file-generated-column is open: no generated columns",
@@ -1746,6 +1752,9 @@ func c36FormatValueOK(g *c36Gate, t *c36Type, v c36Val) bool {
 		if has("decimal_gt15digits") {
 			return false
 		}
+		if has("uint_gt_int64") && excl(g.noParquetUint64) {
+			return false
+		}
 	case "json":
 		if has("json_scalar_top") || has("json_null_literal") {
 			return false
@@ -1772,6 +1781,8 @@ func c36FormatFallback(t *c36Type) c36Val {
 		return c36Val{lit: "0", key: "d:0"}
 	case "year":
 		return c36Val{lit: "1901", key: "y:1901"}
+	case "int":
+		return c36Val{lit: "7", key: "i:7"}
 	case "json":
 		return c36Val{lit: "'{\"a\": [1, \"é\"]}'", tags: []string{"json_unicode"}}
 	}
